@@ -165,6 +165,18 @@ def make_case(ctx, g):
             if again != t0:
                 fails.append(Failure("oracle", None, "%s export changed after other exporters (%s) ran" % (name, sorted(used)),
                                      {"ops": list(w.ops), "export": name, "sequence": sorted(used)}))
+    if twin_world is not None and not fails and g.chance(0.3) and b.mutate_in_place([d]):
+        # second chapter: the document is changed in place after it has been through the exporters; a document built afresh
+        # by the same operations has never been exported: both must export alike (nothing remembered from before)
+        ctx.count("changed-after-first-export")
+        fresh = replay_ops(w.ops).conts[d]
+        for name in [n for n in EXPORTERS if n in TEXT][:]:
+            a = run_export(g, doc, name)
+            b_ = run_export(g, fresh, name)
+            if isinstance(a, str) and isinstance(b_, str) and a != b_:
+                fails.append(Failure("oracle", None, "%s export after an in-place change differs from the export of an identically "
+                                     "built document that was never exported before" % name,
+                                     {"ops": list(w.ops), "export": name, "sequence": sorted(used)}))
     if twin_world is not None:
         w.obs(d)      # (after a mutation by an exporter the model's view of the document is no longer comparable)
     ctx.evaluations += 1
